@@ -26,6 +26,7 @@ type c15Case struct {
 	Flag     bool     `json:"flag,omitempty"`  // delete -e / insert,infix -e / extract -v
 	Fasta    bool     `json:"fasta,omitempty"` // -F fasta
 	GuestLen int      `json:"guest_len,omitempty"`
+	Twice    bool     `json:"twice,omitempty"` // the input stream holds the record twice: both copies must be treated alike
 }
 
 type mRegion struct {
@@ -256,7 +257,24 @@ func c15Check(c c15Case) *Violation {
 		if errText != "" {
 			return nil, viol("output-unreadable", "%s: output does not parse: %s\n%s", what, errText, clipStr(string(res.Out), 600))
 		}
+		if c.Twice && c.Cmd != "infix" {
+			// the same record twice in one stream: the locator is applied to each; both halves must be identical
+			if len(recs)%2 != 0 {
+				return nil, viol("second-record", "%s: %d output records for an input that holds the same record twice", what, len(recs))
+			}
+			h := len(recs) / 2
+			for i := 0; i < h; i++ {
+				a, b := recs[i], recs[h+i]
+				if !bytes.Equal(a.bytes, b.bytes) || featuresString(a.feats) != featuresString(b.feats) {
+					return nil, viol("second-record", "%s: the second copy of the record is treated differently: output %d is %q %s, output %d is %q %s", what, i, a.bytes, featuresString(a.feats), h+i, b.bytes, featuresString(b.feats))
+				}
+			}
+			recs = recs[:h]
+		}
 		return recs, nil
+	}
+	if c.Twice && c.Cmd != "infix" {
+		input = append(append([]byte{}, input...), input...)
 	}
 	origSets := map[string][]posStrand{}
 	for _, f := range c.Feats {
@@ -701,6 +719,9 @@ func c15Classify(c c15Case) (bool, []string) {
 	if c.Fasta {
 		labels = append(labels, "fasta")
 	}
+	if c.Twice {
+		labels = append(labels, "two-records")
+	}
 	var regions []mRegion
 	for _, lt := range c.Locators {
 		rr, ok := resolveLocator(lt, c.L, c.Feats)
@@ -748,7 +769,7 @@ func c15Gen(t *rapid.T) c15Case {
 	L := rapid.IntRange(20, 60).Draw(t, "L")
 	c := c15Case{Cmd: rapid.SampledFrom([]string{"delete", "insert", "infix", "split", "rotate", "extract", "extract"}).Draw(t, "cmd"),
 		L: L, Circ: rapid.Bool().Draw(t, "circ"), Flag: rapid.IntRange(0, 2).Draw(t, "flag") == 0, Fasta: rapid.IntRange(0, 5).Draw(t, "fasta") == 0,
-		GuestLen: rapid.IntRange(1, 5).Draw(t, "guestlen")}
+		GuestLen: rapid.IntRange(1, 5).Draw(t, "guestlen"), Twice: rapid.IntRange(0, 2).Draw(t, "twice") == 0}
 	// 1..6 labelled features: overlapping, nested, unsorted, complement, joins (disjoint ascending parts)
 	n := rapid.IntRange(1, 6).Draw(t, "nfeat")
 	keys := []string{"gene", "CDS", "misc_feature", "gene"}
@@ -816,7 +837,7 @@ func TestC15(t *testing.T) {
 					if flag && (cmd == "split" || cmd == "rotate") {
 						continue
 					}
-					if !e.try(c15Case{Cmd: cmd, L: 56, Circ: circ, Feats: feats, Locators: []string{loc}, Flag: flag, GuestLen: 3}) {
+					if !e.try(c15Case{Cmd: cmd, L: 56, Circ: circ, Feats: feats, Locators: []string{loc}, Flag: flag, GuestLen: 3, Twice: circ != flag}) {
 						return
 					}
 				}
